@@ -146,6 +146,8 @@ func init() {
 			{"File", "adjustFormulaRef", "guardsRef"},
 			{"", "transformParenthesesToken", "guardsParen"},
 			{"", "escapeSheetName", "guardsEscape"},
+			{"", "needQuoteSheetName", "guardsNeedQuote"},
+			{"", "arrayConstantTokens", "guardsArray"},
 		} {
 			fd := funcDecl(f.recv, f.name)
 			if fd == nil {
@@ -179,34 +181,23 @@ func init() {
 			fail("adjustFormulaOperand: range loop with the three character-class guards ($, letters, digits)")
 			w.WriteString("def dollar : Nat := 36\ndef upperLo : Nat := 65\ndef upperHi : Nat := 90\ndef lowerLo : Nat := 97\ndef lowerHi : Nat := 122\ndef digitLo : Nat := 48\ndef digitHi : Nat := 57\n")
 		}
-		// the sheet separator of strings.Split(token.TValue, "!") and the part count of `len(tokens) == 2`
-		sep, parts := "", ""
+		// the sheet separator of strings.LastIndex(token.TValue, "!")
+		sep := ""
 		if fd := funcDecl("File", "adjustFormulaOperand"); fd != nil {
 			ast.Inspect(fd, func(n ast.Node) bool {
-				switch x := n.(type) {
-				case *ast.CallExpr:
-					if c07Norm(x.Fun) == "strings.Split" && len(x.Args) == 2 {
-						if b, ok := x.Args[1].(*ast.BasicLit); ok && b.Kind == token.STRING {
-							sep = unq(b.Value)
-						}
-					}
-				case *ast.IfStmt:
-					if be, ok := x.Cond.(*ast.BinaryExpr); ok && be.Op == token.EQL {
-						if c, ok := be.X.(*ast.CallExpr); ok && c07Norm(c.Fun) == "len" {
-							if b, ok := be.Y.(*ast.BasicLit); ok && b.Kind == token.INT {
-								parts = b.Value
-							}
-						}
+				if x, ok := n.(*ast.CallExpr); ok && c07Norm(x.Fun) == "strings.LastIndex" && len(x.Args) == 2 {
+					if b, ok := x.Args[1].(*ast.BasicLit); ok && b.Kind == token.STRING {
+						sep = unq(b.Value)
 					}
 				}
 				return true
 			})
 		}
-		if len(sep) == 1 && parts != "" {
-			fmt.Fprintf(w, "def sheetSep : Nat := %d\ndef sheetParts : Nat := %s\n", sep[0], parts)
+		if len(sep) == 1 {
+			fmt.Fprintf(w, "def sheetSep : Nat := %d\n", sep[0])
 		} else {
-			fail("adjustFormulaOperand: strings.Split(token.TValue, \"!\") and len(tokens) == 2")
-			w.WriteString("def sheetSep : Nat := 33\ndef sheetParts : Nat := 2\n")
+			fail("adjustFormulaOperand: strings.LastIndex(token.TValue, \"!\")")
+			w.WriteString("def sheetSep : Nat := 33\n")
 		}
 		// floor constants: `if X += offset; X < k { X = k' }`
 		for _, f := range []fn{{"", "adjustFormulaColumnName", "col"}, {"", "adjustFormulaRowNumber", "row"}} {
